@@ -40,3 +40,23 @@ Proof.
   exact (spec_complete_partial_gen vr ev lib spec_restricted pok sok cid mem m Hvr Hev restricted_refines_lib
                                    Hval Hnd (lib_complete_spec cid Hin) Hinp).
 Qed.
+
+(* ... with the value of every stored property that was not given: its default (default_entry) *)
+Lemma spec_complete_partial_defaults_lib :
+  forall (vr : variant) (ev : env) pok sok cid mem m,
+    variant_complete vr = true -> env_complete ev = true ->
+    valid_obj spec_restricted pok (S m) cid (JObj mem) = true -> NoDup (map fst mem) ->
+    In cid lib_complete ->
+    (forall c sc, find_class (wclasses lib) cid = Some c -> find_class (wclasses spec_restricted) cid = Some sc ->
+                  input_complete c sc mem = true) ->
+    exists c sc inner dfl,
+      find_class (wclasses lib) cid = Some c /\ find_class (wclasses spec_restricted) cid = Some sc /\
+      run vr ev lib pok sok (S m) (RConstruct cid false false mem None) = Ok (PObject cid inner dfl false) /\
+      (forall k v, In (k, v) mem -> exists x s', alookup k inner = Some x /\ find_slot sc k = Some s' /\
+                                                 jsame (skind s') v (encode true x)) /\
+      (forall k x, alookup k inner = Some x -> alookup k mem = None -> default_entry vr ev c k x).
+Proof.
+  intros vr ev pok sok cid mem m Hvr Hev Hval Hnd Hin Hinp.
+  exact (spec_complete_partial_defaults_gen vr ev lib spec_restricted pok sok cid mem m Hvr Hev restricted_refines_lib
+                                            Hval Hnd (lib_complete_spec cid Hin) Hinp).
+Qed.
